@@ -627,6 +627,44 @@ fn unordered_collections(c: &mut Ctx, b: &Budget) {
         c.check("hashset-deterministic", digests_set.len() == 1, "hashset-order", || format!("{} different digests for one HashSet with elements {:?}", digests_set.len(), items));
         c.end();
     }
+    // the same through the scenario language, so that the model (which inserts into the sorted map in the order given) is compared:
+    // elements of every leaf kind, every order, with repetitions; sets and maps as subject, predicate and object
+    let alphabet: Vec<String> = leaf_alphabet().into_iter().filter(|h| h.len() <= 40).collect();
+    for r in 0..rounds {
+        c.begin("collections-model");
+        let n = c.rng.range(1, 7);
+        let mut items: Vec<String> = vec![];
+        while items.len() < n { let x = alphabet[c.rng.below(alphabet.len())].clone(); if !items.contains(&x) { items.push(x); } }
+        if r % 4 == 0 { items.truncate(2); }     // small sets: the sizes where "nothing to order" shortcuts would live
+        if r % 7 == 0 { items.truncate(1); }
+        let mut regs_set = vec![]; let mut regs_map = vec![];
+        for k in 0..4 {
+            let mut order = items.clone(); c.rng.shuffle(&mut order);
+            if k == 3 { let d = order[0].clone(); order.push(d); }      // a repeated insertion
+            let op = if k % 2 == 0 { "set_leaf" } else { "dset_leaf" };
+            let s = c.assign(&format!("{} {}", op, order.join(",")));
+            observe_env(c, &s, true);
+            regs_set.push(s);
+            let pairs: Vec<String> = order.iter().map(|x| format!("{}={}", x, items[(items.iter().position(|y| y == x).unwrap() + 1) % items.len()])).collect();
+            let op = if k % 2 == 0 { "map_leaf" } else { "dmap_leaf" };
+            let m = c.assign(&format!("{} {}", op, pairs.join(",")));
+            observe_env(c, &m, true);
+            regs_map.push(m);
+        }
+        for regs in [&regs_set, &regs_map] {
+            let ds: HashSet<Digest> = regs.iter().filter_map(|r| c.env(r)).map(|e| e.digest().into_owned()).collect();
+            c.check("collection-order-independent", ds.len() == 1 && regs.iter().all(|r| c.is_ok(r)), "hashset-order", || format!("{} digests for one collection over {:?}", ds.len(), items));
+        }
+        // as predicate and object of an assertion on a subject that is a set
+        let a = c.assign(&format!("assertion {} {}", regs_map[0], regs_set[1]));
+        let host = c.assign(&format!("add {} {}", regs_set[0], a));
+        roundtrip(c, &host);
+        let a2 = c.assign(&format!("assertion {} {}", regs_map[2], regs_set[3]));
+        let host2 = c.assign(&format!("add {} {}", regs_set[2], a2));
+        c.obs(&format!("eq {} {}", host, host2));
+        if let (Some(x), Some(y)) = (c.env(&host), c.env(&host2)) { c.check("collection-order-independent", x.is_identical_to(&y) && x.tagged_cbor().to_cbor_data() == y.tagged_cbor().to_cbor_data(), "hashset-order", || format!("{} vs {}", shape(&x), shape(&y))); }
+        c.end();
+    }
 }
 
 // ---------------------------------------------------------------------------------- C06
